@@ -3,7 +3,7 @@
    code of reshape.go, flatten.go, squeeze.go, unsqueeze.go, shape.go as repaired), S = the
    ONNX text as written in Check/CheckC07.v (reshape_spec ... shape_spec). *)
 From Coq Require Import List ZArith Bool String.
-From V Require Import DType Tensor Case OpCheck ShapeOps CheckC07 ShapeOpsProofs C07Payload C07Numel C07Numel2 C07Numel3 C07WellFormed C07FlattenAxis C07ReshapeRefusals.
+From V Require Import DType Tensor Case OpCheck ShapeOps CheckC07 ShapeOpsProofs C07Payload C07Numel C07Numel2 C07Numel3 C07WellFormed C07FlattenAxis C07ReshapeRefusals C07SqueezeRefusals.
 Import ListNotations.
 Open Scope Z_scope.
 
@@ -104,6 +104,16 @@ Theorem C07_reshape_refuses_bad_request t shp n :
   (exists d, In d (pl shp) /\ d < -1) \/ (2 <= List.length (filter (fun d => (d =? -1)%Z) (pl shp)))%nat ->
   reshape_spec t shp = SMustErr.
 Proof. exact (reshape_refuses_bad_request t shp n). Qed.
+
+(* S demands an error for a Squeeze axis outside [-rank, rank-1], and for a named axis (negative
+   ones counted from the end) whose extent is not 1 *)
+Theorem C07_squeeze_refuses t a n :
+  let r := Z.of_nat (List.length (sh t)) in
+  sh a = [n] ->
+  (exists x, In x (pl a) /\ (x < - r \/ r <= x)) \/
+  (exists x, In x (pl a) /\ - r <= x < r /\ nth (Z.to_nat (if x <? 0 then x + r else x)) (sh t) 0%nat <> 1%nat) ->
+  squeeze_spec t (Some a) = SMustErr.
+Proof. exact (squeeze_refuses t a n). Qed.
 
 (* the known-finding class is real: the model (and the code) panic on it *)
 Example C07_shape_rank0_refuted :
